@@ -65,7 +65,9 @@ Emit(e) ==
                                   /\ <<e.fh, e.fr>> \in reps(b) /\ DestsIn(e, b) # {<<e.fh, e.fr>>}}
       (* group-by: key -> replica must stay a function, per consumer block, whoever produces *)
       key == IF r.kind = "groupby" THEN e.v % r.m ELSE 0
-      kk(b) == <<b, r.keyspace, key>>
+      (* the key -> replica map is kept per key space, not per consumer block: consumer blocks that are *)
+      (* later combined by forward connections (keyed join / merge) must be partitioned alike           *)
+      kk(b) == <<r.keyspace, key>>
       (* route: index of the first matching predicate (0: none) *)
       first == IF r.kind # "route" \/ ~data THEN 0
                ELSE IF \E i \in 1..Len(r.preds) : FFilter(r.preds[i], e.v)
@@ -90,9 +92,25 @@ Emit(e) ==
      /\ \A d \in stray : V("unpromised_destination", e, [dest |-> d])
      /\ keymap' = [x \in (DOMAIN keymap) \cup {kk(b) : b \in newkeys} |->
                      IF x \in DOMAIN keymap THEN keymap[x]
-                     ELSE CHOOSE p \in DestsIn(e, x[1]) : TRUE]
+                     ELSE CHOOSE p \in UNION {DestsIn(e, b) : b \in newkeys} : TRUE]
      /\ nviol' = nviol + Cardinality(bad_control) + Cardinality(bad_fan) + Cardinality(bad_all)
                        + Cardinality(bad_idx) + Cardinality(bad_key) + Cardinality(stray) + Cardinality(bad_route)
+
+(* A data element was enqueued to replica (th, tr) of block tb, where tb is the consumer block of a  *)
+(* group-by connection made INSIDE an API call (group_by_fold, group_by_count, ...: the local phase  *)
+(* and its End are not probed).  key is the partitioning key of the element.                         *)
+DestRules(tb) == {r \in Range(rules) : r.kind = "groupby_dest" /\ r.to = <<tb>>}
+Enqd(e) ==
+  LET rs == DestRules(e.tb)
+      bad == {r \in rs : <<r.keyspace, e.key>> \in DOMAIN keymap /\ keymap[<<r.keyspace, e.key>>] # <<e.th, e.tr>>}
+      new == {r \in rs : <<r.keyspace, e.key>> \notin DOMAIN keymap}
+  IN /\ \A r \in bad : PrintT(<<"VIOL", ToJson([prop |-> "C03", kind |-> "groupby_key_split", job |-> job, index |-> l,
+                                  probe |-> r.probe,
+                                  extra |-> [to |-> e.tb, key |-> e.key, first |-> keymap[<<r.keyspace, e.key>>],
+                                             now |-> <<e.th, e.tr>>, keyspace |-> r.keyspace]])>>)
+     /\ keymap' = [x \in (DOMAIN keymap) \cup {<<r.keyspace, e.key>> : r \in new} |->
+                     IF x \in DOMAIN keymap THEN keymap[x] ELSE <<e.th, e.tr>>]
+     /\ nviol' = nviol + Cardinality(bad)
 
 Step ==
   /\ l <= Len(Rec)
@@ -101,6 +119,7 @@ Step ==
        CASE e.ev = "job"  -> /\ job' = e.id /\ blocks' = e.blocks /\ rules' = e.rules
                              /\ keymap' = [x \in {} |-> 0] /\ UNCHANGED nviol
          [] e.ev = "emit" -> Emit(e) /\ UNCHANGED <<job, blocks, rules>>
+         [] e.ev = "enqd" -> Enqd(e) /\ UNCHANGED <<job, blocks, rules>>
          [] OTHER         -> UNCHANGED <<job, blocks, rules, keymap, nviol>>
 
 Spec == Init /\ [][Step]_vars
